@@ -472,6 +472,26 @@ fn update_grid(r: &mut Runner, thorough: bool) {
                             return (true, Some((viol("C14", "update.supplied_section_not_replaced", format!("section {key} supplied but unchanged")), case)));
                         }
                     }
+                    // a supplied section is replaced by exactly the supplied values (prefixes normalised to lower case)
+                    let upd = &msgv["update_config"];
+                    for (name, key) in [("native", "native_chain_config"), ("protocol", "protocol_chain_config"), ("fee", "protocol_fee_config"), ("monitors", "monitors"), ("batch_period", "batch_period")] {
+                        if !supplied.contains(&name) {
+                            continue;
+                        }
+                        let mut want = upd[key].clone();
+                        if let Some(o) = want.as_object_mut() {
+                            for (k, v) in o.iter_mut() {
+                                if k.ends_with("_prefix") {
+                                    if let Some(sv) = v.as_str() {
+                                        *v = json!(sv.to_lowercase());
+                                    }
+                                }
+                            }
+                        }
+                        if aj[key] != want {
+                            return (true, Some((viol("C14", "update.supplied_section_not_stored", format!("section {key} supplied as {} but stored as {}", want, aj[key])), case)));
+                        }
+                    }
                     if aj["liquid_stake_token_denom"] != before_json["liquid_stake_token_denom"] || aj["stopped"] != before_json["stopped"] {
                         return (true, Some((viol("C14", "update.lst_or_stopped_changed", format!("UpdateConfig changed LST denom or halted flag: {} / {}", aj["liquid_stake_token_denom"], aj["stopped"])), case)));
                     }
